@@ -217,6 +217,68 @@ fn shard(ctx: &mut ShardCtx, mode: &'static str, quick: u64, thorough: u64) {
         HCase { mode: mode.to_string(), cfg, reopen_cfgs, steps, excluded: excluded.clone() }
     });
     ctx.search("history", strat, n, &run);
+    if mode == "c11" {
+        // tree level: the same page graph audit on raw trees that grow to 3-4 levels and shrink again
+        // (interior merges, root collapses); C11 owns the audit.* clauses, the rest is C10's business
+        let own = |mut o: CaseOut| -> CaseOut {
+            if let Some(f) = &o.failure {
+                if !f.clause.starts_with("audit.") {
+                    o.labels.push(format!("abandoned.tree.{}", f.clause));
+                    o.failure = None;
+                }
+            }
+            o
+        };
+        let lim = |name: &str, d: u64| ctx.findings.limit("C10", name, d);
+        let c10x = ctx.findings.excludes("C10");
+        let small_only = c10x.contains_key("payload.overflow_cell");
+        let cap = { let l = lim("payload_cap", u32::MAX as u64) as u32; if l == u32::MAX { 0 } else { l } };
+        let nb = ctx.share(ctx.tier.pick(48, 1_500));
+        let bulk_keys = lim("bulk_keys", ctx.tier.pick(3600, 9000)) as usize;
+        let desc = !c10x.contains_key("bulk.descending");
+        ctx.search("c11_tree_bulk", super::c10::gen_bulk(bulk_keys, desc), nb, &|c: &super::c10::BulkCase| own(super::c10::run_bulk(c)));
+        let nt = ctx.share(ctx.tier.pick(3_000, 60_000));
+        ctx.search("c11_tree_ops", super::c10::gen_case(200, small_only, false, cap), nt, &|c: &super::c10::TreeCase| own(super::c10::run_case(c, 1)));
+    }
+    if mode == "c07" || mode == "c15" {
+        // late index: CREATE UNIQUE INDEX over a table that already holds live rows around a dead one
+        // (deleted, or written by a rolled-back transaction), then every existing key is offered again
+        let excluded: Vec<String> = ctx.excludes.keys().cloned().collect();
+        let m = mode.to_string();
+        let strat = (proptest::sample::subsequence((0u8..12).collect::<Vec<_>>(), 4..9), any::<u8>(), any::<bool>(), 1usize..4, any::<bool>()).prop_map(move |(vals, hole, by_rollback, tail, vacuum)| {
+            let row = |v: u8| vec![AVal::Pool(v), AVal::Pool(v), AVal::Pool(v), AVal::Pool(v), AVal::Pool(v)];
+            let ins = |v: u8| Step::Auto(AStmt::Insert { t: 0, rows: vec![row(v)], partial: false });
+            let mut steps = vec![Step::Auto(AStmt::Create { name: 0, cols: vec![ACol { ty: 0, not_null: false, default: None }, ACol { ty: 0, not_null: false, default: None }], pk: None, uniq: None })];
+            let tail = tail.min(vals.len() - 2);
+            let (head, rest) = vals.split_at(vals.len() - tail - 1);
+            let (spare, rest) = rest.split_at(1);
+            for v in head {
+                steps.push(ins(*v));
+            }
+            if by_rollback {
+                steps.push(Step::Begin(0));
+                steps.push(Step::Exec(0, AStmt::Insert { t: 0, rows: vec![row(spare[0])], partial: false }));
+                steps.push(Step::Rollback(0));
+            } else {
+                let victim = head[hole as usize % head.len()];
+                steps.push(Step::Auto(AStmt::Delete { t: 0, pred: APred::Cmp { col: 0, op: 0, val: AVal::Pool(victim) } }));
+            }
+            for v in rest {
+                steps.push(ins(*v));
+            }
+            if vacuum {
+                steps.push(Step::Vacuum);
+            }
+            steps.push(Step::Auto(AStmt::CreateIndex { t: 0, col: 0 }));
+            for v in head.iter().chain(rest.iter()) {
+                steps.push(ins(*v));
+            }
+            steps.push(Step::Reopen(0));
+            steps.push(ins(rest[0]));
+            HCase { mode: m.clone(), cfg: Cfg::default(), reopen_cfgs: vec![], steps, excluded: excluded.clone() }
+        });
+        ctx.search("history", strat, n / 16 + 1, &run);
+    }
     if mode == "c13" {
         // update/vacuum cycles on a few rows: contents stay right, storage stays bounded
         let excluded: Vec<String> = ctx.excludes.keys().cloned().collect();
@@ -238,6 +300,8 @@ fn shard(ctx: &mut ShardCtx, mode: &'static str, quick: u64, thorough: u64) {
 
 pub fn replay(kind: &str, case: &Value) -> CaseOut {
     match kind {
+        "c11_tree_bulk" => super::c10::replay("tree_bulk", case),
+        "c11_tree_ops" => super::c10::replay("tree_ops", case),
         "history" => match from_value::<HCase>(case) {
             Ok(c) => run(&c),
             Err(e) => CaseOut::fail(Failure::new("bad_replay", e)),
